@@ -139,3 +139,13 @@ Example independent_arcs_would_be_wrong_finite_check :
   ~ (16#105 == (2#5) * (2#5) * (2#5)).
 Proof. apply conj; [vm_compute; reflexivity|]. apply conj; [vm_compute; reflexivity|]. intro H. vm_compute in H. discriminate H. Qed.
 Print Assumptions independent_arcs_would_be_wrong_finite_check.
+
+(* the skeleton does not depend on the constant that answers expovariate (no branch of
+   Gillespie_SIR with tmax = inf looks at a time): answering 7/3 instead of 1 gives the same
+   final-size law on the triangle *)
+Example skeleton_independent_of_the_answer_finite_check :
+  map (fun k => Qred (prob (fun o => Z.eqb (final_R o) (Z.of_nat k))
+                       (law (skel (7#3) (gillespie tri SIR 2 3 (Some [0%N]) (Some []) None 0 None false 7))))) (seq 0 4)
+  = [0; 3#7; 36#175; 64#175].
+Proof. vm_compute. reflexivity. Qed.
+Print Assumptions skeleton_independent_of_the_answer_finite_check.
